@@ -101,6 +101,7 @@ type FS struct {
 	Ops        []OpRec
 	count      int
 	dead       bool
+	exited     bool
 	fidSeq     int
 	Fired      string // description of the injected fault/crash, when it fired
 	stickyKind string
@@ -191,7 +192,7 @@ func (fs *FS) FSBefore(op *simhook.FSOp) simhook.FSVerdict {
 	}
 	fs.mu.Lock()
 	defer fs.mu.Unlock()
-	if fs.dead {
+	if fs.dead || fs.exited {
 		return simhook.FSVerdict{Err: pathErr(op, syscall.EIO)}
 	}
 	fs.count++
@@ -234,7 +235,7 @@ func (fs *FS) FSAfter(op *simhook.FSOp, n int64, err error) {
 		return
 	}
 	fs.mu.Lock()
-	if fs.dead {
+	if fs.dead || fs.exited {
 		fs.mu.Unlock()
 		return
 	}
@@ -313,12 +314,24 @@ func (fs *FS) Stdio(fd int, b []byte) bool {
 func (fs *FS) Stdout() string { fs.mu.Lock(); defer fs.mu.Unlock(); return string(fs.stdout) }
 func (fs *FS) Stderr() string { fs.mu.Lock(); defer fs.mu.Unlock(); return string(fs.stderr) }
 
+// Exit is os.Exit: the process is gone at once and runs no deferred function.
+// The calling goroutine is unwound with a sentinel panic so that the harness
+// gets control back, which does run relic's deferred functions - but from this
+// moment the disk accepts nothing any more (every operation fails without
+// touching the file system), so what they would have cleaned up stays exactly
+// as os.Exit leaves it.
 func (fs *FS) Exit(code int) {
+	fs.mu.Lock()
+	fs.exited = true
+	fs.mu.Unlock()
 	if fs.ExitHook != nil {
 		fs.ExitHook(code)
 	}
 	panic(simhook.ExitPanic{Code: code})
 }
+
+// Exited reports whether the simulated process called os.Exit.
+func (fs *FS) Exited() bool { fs.mu.Lock(); defer fs.mu.Unlock(); return fs.exited }
 
 func (fs *FS) Yield(tag string) bool {
 	if fs.Sched != nil {
